@@ -19,6 +19,7 @@ func gen(c *hmain.Ctx) {
 	add("basic", pipedrv.FamBasic, 60)
 	add("hold", pipedrv.FamHold, 80)
 	add("split", pipedrv.FamSplit, 30)
+	add("two-holders", pipedrv.FamTwoHolders, 40)
 	add("retry", pipedrv.FamRetry, 30)
 	add("deadqueue", pipedrv.FamDeadQ, 30)
 	pipedrv.RunJobs(jobs, 40)
